@@ -85,6 +85,55 @@ func c06MapOrderStatic(cycles bool) Harness {
 
 func c06MapOrderStaticRun(c *Ctx, cycles bool) {
 	m := c06StaticFeed(c)
+	header := 0
+	if !cycles {
+		header = c.Free("headers", 3) // as generated; agency.txt lacks required columns; padded header cells
+	}
+	if header == 2 {
+		// no column is called stop_name / trip_headsign, two are called so up to blanks (with different values):
+		// whatever the parser makes of them, it makes the same of them every time
+		for _, fc := range [][2]string{{"stops.txt", "stop_name"}, {"trips.txt", "trip_headsign"}, {"routes.txt", "route_long_name"}} {
+			t := m.t(fc[0])
+			k := t.col(fc[1])
+			if k < 0 {
+				harnessBug("no column %s in %s", fc[1], fc[0])
+			}
+			t.Cols[k] = " " + fc[1]
+			t.Cols = append(t.Cols, fc[1]+" ")
+			for r := range t.Rows {
+				t.Rows[r] = append(t.Rows[r], fmt.Sprintf("OTHER-%s-%d", fc[1], r))
+			}
+		}
+		c.Witness("padded_header_cells")
+	}
+	if header == 1 {
+		// the parse reports the missing columns (in a warning or in its error): in one order, every time
+		a := m.t("agency.txt")
+		a.dropCol("agency_name")
+		a.dropCol("agency_url")
+		a.dropCol("agency_timezone")
+		b := renderFeed(m, presentation{})
+		c.Input(hash64(string(b)), true, func() string { return "agency.txt without agency_name, agency_url, agency_timezone" })
+		describe := func() string {
+			r, err, _ := parseStaticGuarded(c, b, gtfs.ParseStaticOptions{})
+			if err != nil {
+				return "error: " + err.Error()
+			}
+			return dumpStatic(r, staticDumpOpts{})
+		}
+		ref := describe()
+		c.SetMapMode(mapFree)
+		got := describe()
+		c.SetMapMode(mapFixed)
+		c.Steps(2)
+		c.Outcome(got)
+		c.Relate("static-pure-function", string(b), got)
+		if ref != got {
+			c.Fail("static/"+classifyDiff(ref, got), "the same archive (agency.txt lacking three required columns) gives another result under another map iteration order\n%s", diffLines(ref, got))
+		}
+		c.Witness("missing_required_columns_reported")
+		return
+	}
 	if cycles {
 		st := m.t("stops.txt")
 		p := protoRow(st)
@@ -261,8 +310,12 @@ func c06RejectedInputs() Harness {
 	names := []string{"valid feed cut in half", "valid feed minus its last byte", "HTML error page", "33 bytes of HTML", "40 bytes of HTML", "entity without id (required field)", "valid feed + 3 stray bytes", "empty",
 		"plain text 'Rate limit exceeded...'", "plain text 'Unauthorized'", "a base64-encoded feed", "half a base64-encoded feed", "a JSON error body"}
 	zip := renderFeed(genStaticFeedN(&Ctx{}, false, baseCounts, nil, nil), presentation{})
-	zinputs := [][]byte{zip[:len(zip)/2], zip[:len(zip)-1], html, append(append([]byte{}, zip[:200]...), zip[260:]...), {}}
-	znames := []string{"archive cut in half", "archive minus its last byte", "HTML error page", "archive with 60 bytes removed", "empty"}
+	// an archive comment whose tail was cut off: the end-of-central-directory record announces 40 comment bytes, 12 follow
+	withComment := append([]byte{}, zip...)
+	withComment[len(withComment)-2], withComment[len(withComment)-1] = 40, 0
+	withComment = append(withComment, []byte("feed of 2024")...)
+	zinputs := [][]byte{zip[:len(zip)/2], zip[:len(zip)-1], html, append(append([]byte{}, zip[:200]...), zip[260:]...), {}, withComment}
+	znames := []string{"archive cut in half", "archive minus its last byte", "HTML error page", "archive with 60 bytes removed", "empty", "archive with a truncated comment"}
 	return func(c *Ctx) {
 		static := c.Free("kind", 2) == 1
 		spare := []int{0, 1, 64}[c.Free("spare_capacity", 3)]
@@ -391,6 +444,11 @@ func c06FeedsWith(startDate, idSuffix string) [][]byte {
 		}
 		return &gtfsrt.FeedEntity{Id: sp(id), TripUpdate: tu}
 	}
+	// later: the entity's first stop time is moved d seconds after the header timestamp (an unassigned trip that is not stale)
+	later := func(e *gtfsrt.FeedEntity, d int64) *gtfsrt.FeedEntity {
+		e.TripUpdate.StopTimeUpdate[0].Departure.Time = cp2(int64(ts) + d)
+		return e
+	}
 	merc := c17MercuryEntity(nil, mercurySpec{prio1: 29, prio2: -2, prefix: 0, hasExt: true})
 	// NYCT oddities: assigned trips without a train id (as a trip update and as a vehicle), an
 	// unassigned trip without stop times, a stop time update without a stop id on route M
@@ -469,7 +527,7 @@ func c06FeedsWith(startDate, idSuffix string) [][]byte {
 		mk(elevEntity(elevAlert{"A27", "N", "1"}, 0), elevEntity(elevAlert{"A27", "S", "1"}, 1)),
 		mk(elevEntity(elevAlert{"A27", "S", "1"}, 0), elevEntity(elevAlert{"E01", "N", "1"}, 1), plainAlertEntity("plain-1")),
 		mk(nyctTU("e1", "063000_M..S20R", "M", true, "M11N", "M12N"), nyctTU("e2", "064000_M..S20R", "M", false, "M16S")),
-		mk(nyctTU("e1", "070000_J..N20R", "J", false, "M11N"), &gtfsrt.FeedEntity{Id: sp("vp"), Vehicle: &gtfsrt.VehiclePosition{Vehicle: &gtfsrt.VehicleDescriptor{Id: sp("V1")}, Trip: &gtfsrt.TripDescriptor{TripId: sp("plain")}}}),
+		mk(nyctTU("e1", "070000_J..N20R", "J", false, "M11N"), later(nyctTU("e3", "070500_J..N20R", "J", false, "M11N", "M12N"), 600), &gtfsrt.FeedEntity{Id: sp("vp"), Vehicle: &gtfsrt.VehiclePosition{Vehicle: &gtfsrt.VehicleDescriptor{Id: sp("V1")}, Trip: &gtfsrt.TripDescriptor{TripId: sp("plain")}}}),
 		mk(merc, c17MercuryEntity(nil, mercurySpec{prio1: 2, prio2: -2, prefix: 1, hasExt: true}), nyctTU("e1", "063000_M..S20R", "M", true, "M11N"), elevEntity(elevAlert{"A27", "N", "1"}, 0), elevEntity(elevAlert{"A27", "S", "1"}, 1), elevEntity(elevAlert{"A27", "", "1"}, 2)),
 		mk(odd("o1", "071000_M..N20R", false), odd("o2", "071000_M..N20R", true), odd("o3", "072000_M..N20R", false), nyctTU("o4", "073000_M..S20R", "M", false),
 			// NYCT descriptors on ids that are NOT of the NYCT form but share their first six characters with
@@ -484,10 +542,17 @@ func c06FeedsWith(startDate, idSuffix string) [][]byte {
 			ma.HumanReadableActivePeriod = &gtfsrt.TranslatedString{Translation: []*gtfsrt.TranslatedString_Translation{{Text: sp("Every Tuesday")}}}
 			return mk(e, plainAlertEntity("plain-2"))
 		}(),
+		// a message whose header is an hour ahead of the others' (an archive replayed out of order, a retry of
+		// an older download): what "stale" means for the messages parsed after it is still decided by their own header
+		func() []byte {
+			m := newFeed(u64p(ts + 3600))
+			m.Entity = []*gtfsrt.FeedEntity{nyctTU("f1", "080000_J..N20R", "J", true, "M11N")}
+			return marshalFeed(m)
+		}(),
 	}
 }
 
-var c06FeedNames = []string{"empty", "elevators-1", "elevators-2", "nyct-trips-1", "nyct-trips-2", "mixed", "nyct-oddities", "kitchen-sink", "mixed-alert-again-with-other-metadata"}
+var c06FeedNames = []string{"empty", "elevators-1", "elevators-2", "nyct-trips-1", "nyct-trips-2", "mixed", "nyct-oddities", "kitchen-sink", "mixed-alert-again-with-other-metadata", "nyct-trips-header-an-hour-ahead"}
 
 type rtConfig struct {
 	name   string
@@ -765,8 +830,8 @@ func init() {
 	register(&Check{
 		ID:    "C06",
 		Level: "model_checking",
-		Rule: "(1) every combination of iteration starts at every library map range (choice points owned through the runtime overlay) for a static archive with 3 services/3 shapes/3 trips/3 sibling stops and a realtime message with 3 id-bearing vehicles, 3 trips and an alert with 3 fall-back routes; (2) all call sequences of <= 3 (thorough <= 5) over 9 feeds on ONE shared options/extension object - whose Timezone field the caller may reassign between calls, and whose earlier results the caller may overwrite in place (every value reachable through pointers and slices) - for each of 30 configurations (nil Extension, explicit no-op, 4 nycttrips with and without Timezone, 24 nyctalerts), and all sequences of <= 3 static parses over 3 archives x inherit option; (3) relation (bytes, configuration) -> dump over every parse of the run, across worker processes; (4) all histories of <= 3 (thorough 4) calls over {static archive in New_York / Kolkata / an unknown zone, realtime feed under New_York / UTC / London / two fixed zones both named EST} each executed in its own pristine process and compared call by call with single-call pristine processes; " +
-			"(5) the same archive / message x 30 configurations parsed under 6 wall clocks (real, 1970, around the first stop time of unassigned NYCT trips, 2100; headers with / without / zero timestamp): identical dumps; the map-order archive also with a 3-cycle, a 2-cycle and a self-parent among its stops; (6) rejected inputs (truncated, HTML, plain text, JSON, base64, missing required field, stray bytes) with 0 / 1 / 64 bytes of spare capacity: buffer unchanged up to its capacity; " +
+		Rule: "(1) every combination of iteration starts at every library map range (choice points owned through the runtime overlay) for a static archive with 3 services/3 shapes/3 trips/3 sibling stops and a realtime message with 3 id-bearing vehicles, 3 trips and an alert with 3 fall-back routes; (2) all call sequences of <= 3 (thorough <= 5) over 10 feeds (one with its header an hour ahead of the others) on ONE shared options/extension object - whose Timezone field the caller may reassign between calls, and whose earlier results the caller may overwrite in place (every value reachable through pointers and slices) - for each of 38 configurations (nil Extension, explicit no-op, 4 nycttrips with and without Timezone, 32 nyctalerts), and all sequences of <= 3 static parses over 3 archives x inherit option; (3) relation (bytes, configuration) -> dump over every parse of the run, across worker processes; (4) all histories of <= 3 (thorough 4) calls over {static archive in New_York / Kolkata / an unknown zone, realtime feed under New_York / UTC / London / two fixed zones both named EST} each executed in its own pristine process and compared call by call with single-call pristine processes; " +
+			"(5) the same archive / message x 38 configurations parsed under 6 wall clocks (real, 1970, around the first stop time of unassigned NYCT trips, 2100; headers with / without / zero timestamp): identical dumps; the map-order archive also with a 3-cycle, a 2-cycle and a self-parent among its stops; (6) rejected inputs (truncated, HTML, plain text, JSON, base64, missing required field, stray bytes) with 0 / 1 / 64 bytes of spare capacity: buffer unchanged up to its capacity; " +
 			"non-trivial = distinct histories of >= 2 calls or inputs with a >= 3-entry library map; oracle = differential (rotated vs. fixed order, reused vs. fresh object) with content and order compared",
 		Assumptions: []string{"library maps are single-bucket (<= 8 entries) in these inputs, so rotations are all achievable orders; uncontrolled_maps counts any exception", "process-level state (package variables) is exercised by running histories in 16 separate worker processes that must all agree"},
 		Scenarios: func(tier string) []*Scenario {
